@@ -108,10 +108,11 @@ def symbol_fault(sym, transport, tau, rnd):
             f["again"] = f["d"] + rnd.choice([small, tau / 4, tau])
         return f
     if sym == "frag":
-        return {"k": "frag", "s": rnd.choice([5, 7, 9, 10, 12]), "d1": small,
+        return {"k": "frag", "s": rnd.choice([5, 7, 9, 10, 12, 4, 8]), "d1": small,
                 "d2": rnd.choice([small, tau / 2, tau - EPS, tau, tau + tau / 2])}
     if sym == "lonefrag":
-        return {"k": "lonefrag", "s": rnd.choice([5, 7, 9, 10, 12]), "d1": rnd.choice([small, tau / 2, tau - EPS])}
+        # incl. pieces shorter than the frame header (cut right after the function code / inside the envelope)
+        return {"k": "lonefrag", "s": rnd.choice([5, 7, 9, 10, 12, 4, 3, 8]), "d1": rnd.choice([small, tau / 2, tau - EPS])}
     if sym == "dup":
         return {"k": "dup", "d1": small, "d2": rnd.choice([small, 2 * small, tau / 2, tau + EPS])}
     if sym == "peer_close":
